@@ -11,7 +11,7 @@ class C07(core.Check):
     design_ref = "DESIGN.md §5 C07"
     technique = ("Lean 4 invariant proof over a model of the real-time branch of Doist.do and MonoTimer for an arbitrary clock state machine "
                  "+ differential run of the compiled model against Doist.do under a scripted time.time()/time.sleep()")
-    level_text = ("Lean theorems, unconditional, over EVERY linearly ordered commutative ring of time values (instances stated for Int = what the driver runs, and Rat), for EVERY clock behaviour (an arbitrary state machine answering time.time() and reacting to time.sleep: steady, stalled, stepped back anywhere incl. inside the constructor and between Doist() and do(), overshooting or waking early, running out), every fuel, every number of cycles, every pattern of extra clock readings by doers, every tock (set at construction, defaulted, or reassigned before the run) and, for the *_any_history forms, every prior state of the timer: never_early (cycle k>=1 begins only when the sum of the non-negative clock increments since the run's first reading is >= k*tock), lossless (every sleep request equals max(0, (k+1)*tock - elapsed real time seen by the timer): deadlines stay on the k*tock grid whatever the lateness), run_tock_is_tock_at_start, plus the scanning forms the oracle evaluates; proved by an invariant over the pacing loop (stop - last = deadline - elapsed). Model = repaired code (3 fix: commits on fix/timer). The model is tied to Doist.do/MonoTimer by a differential run of the full event log under a scripted time.time/time.sleep; the retro default and Tymist.Tock are re-extracted on every run. Rounding is outside the exact model: a raw-float stream (fpace: non-dyadic readings/tocks, wake-ups aimed at the float deadline and its neighbours) is judged by a float reference oracle only (tolerance-free: a cycle starts only when the timer shown the run's readings has latest >= its float-accumulated stop; no sleep exceeds stop - latest).")
+    level_text = ("Lean theorems, unconditional, over EVERY linearly ordered commutative ring of time values (instances stated for Int = what the driver runs, and Rat), for EVERY clock behaviour (an arbitrary state machine answering time.time() and reacting to time.sleep: steady, stalled, stepped back anywhere incl. inside the constructor and between Doist() and do(), overshooting or waking early, running out), every fuel, every number of cycles, every pattern of extra clock readings by doers, every tock (set at construction, defaulted, or reassigned before the run) and, for the *_any_history forms, every prior state of the timer: never_early (cycle k>=1 begins only when the sum of the non-negative clock increments since the run's first reading is >= k*tock), lossless (every sleep request equals max(0, (k+1)*tock - elapsed real time seen by the timer): deadlines stay on the k*tock grid whatever the lateness), run_tock_is_tock_at_start, plus the scanning forms the oracle evaluates; proved by an invariant over the pacing loop (stop - last = deadline - elapsed). Model = repaired code (3 fix: commits on fix/timer). The model is tied to Doist.do/MonoTimer by a differential run of the full event log under a scripted time.time/time.sleep; the retro default and Tymist.Tock are re-extracted on every run. Rounding is outside the exact model: a raw-float stream (fpace: non-dyadic readings/tocks, wake-ups aimed at the float deadline and its neighbours) is judged by a float reference oracle only (tolerance-free: a cycle starts only when the timer shown the run's readings has latest >= its float-accumulated stop; no sleep exceeds stop - latest). Phase 3: the same Doist run twice (finished / Ctrl-C / doer exception, clock replaced, tock reassigned, doist() entry; theorem doRun_forgets_timer_history), sibling Doist, no doers, Doist.ado real mode (oracle only).")
     level_note = ("Trusted: Lean kernel + propext/Quot.sound; the sampled correspondence (float arithmetic modelled as Int on integers x 2^-10 s, where doubles are exact); the adapter's monkeypatch of time.time/time.sleep is the only clock. Forward clock jumps are outside the property. Doist.ado (AsyncTimer pacing) is outside C07's text; AsyncTimer itself is modelled under C08.")
     quick_n = 1500
     thorough_n = 120000
@@ -46,7 +46,17 @@ class C07(core.Check):
             ("pace", 0, (0,) * 40, (96, 0, 0, 0), 32, (), 5, (0, 0, 0, 0, 0)),
             # early wake and step back while asleep
             ("pace", 0, (0,) * 40, (-10, -40, 5), 32, (("peek",),), 3, (1, 0, 2)),
+            # no doers at all: still one paced cycle; late by exactly two tocks
+            ("pace", 0, (0,) * 20, (), 32, (), 0, ()),
+            ("pace", 0, (0,) * 40, (64, 0), 32, (), 4, (0, 0, 0, 0)),
             # raw floats: sleeps land exactly on the float deadline; tock reassigned
+            # the same Doist run twice: Ctrl-C in the middle of run 1, clock stepped back, tock changed, second run through doist()
+            ("pace2", (0, (0,) * 9, (5,), 32, (), 3, (0, 0, 0)), ("kbd", 64), (-5000, (0,) * 20, (7,), 3, (0, 0, 0), "call")),
+            ("pace2", (100, (0,) * 40, (), 8, (("sib", 1024), ("tock", 16), ("sibtock", 1), ("tock", 4)), 2, (1, 0)), ("plain", None), (100, (0, 3, -9, 0, 0, 0, 0, 0, 0, 0), (), 2, (0, 0), "do")),
+            ("pace2", (0, (0,) * 40, (), 8, (), 2, (0, 0)), ("exc", 0), (50, (0,) * 12, (), 2, (0, 0), "do")),
+            # Doist.ado in real mode (AsyncTimer): lateness then catch-up; tock reassigned
+            ("apace", 0, (0,) * 40, (96, 0, 0), 32, None, 4, (0, 0, 0, 0)),
+            ("apace", 5, (0, 0, 3, 1) + (0,) * 30, (), 8, 20, 3, (1, 0, 0)),
             ("fpace", 1700000000.123, (0.0,) * 30, (), 0.1, None, 4),
             ("fpace", 0.1, (0.0, 0.0, 0.0, 0.0, -0.3) + (0.0,) * 30, (0.0, 0.7, -0.01), 0.03, 0.1, 5),
         ]
@@ -63,25 +73,61 @@ class C07(core.Check):
 
     def generate(self, rng, n, tier):
         for _ in range(n):
-            yield T.gen_fpace(rng) if rng.random() < 0.2 else T.gen_pace(rng)
+            r = rng.random()
+            yield T.gen_fpace(rng) if r < 0.2 else (T.gen_pace2(rng) if r < 0.4 else (T.gen_apace(rng) if r < 0.5 else T.gen_pace(rng)))
+
+    @staticmethod
+    def _pre_req(pre):
+        # the model sees a sibling Doist being built as two clock readings by somebody else; its tock does not exist there
+        out = []
+        for p in pre:
+            if p[0] == "sib":
+                out += [("xread",), ("xread",)]
+            elif p[0] != "sibtock":
+                out.append(p)
+        return tuple(out)
 
     def request(self, case):
-        return T.wrapF(case) if case[0] == "fpace" else case
+        if case[0] == "apace":
+            return case
+        if case[0] == "fpace":
+            return T.wrapF(case)
+        if case[0] == "pace":
+            # a run with no doers (n == 0) still makes one paced cycle: the model's cycle count is max(n, 1)
+            return case[:5] + (self._pre_req(case[5]), max(case[6], 1), case[7])
+        first = case[1]
+        return ("pace2", first[:4] + (self._pre_req(first[4]), max(first[5], 1), first[6]), case[2], case[3])
 
     def model_applies(self, case):
-        return case[0] != "fpace"      # raw (non-dyadic) floats: oracle only, the model's time is exact
+        if case[0] == "apace":
+            return False      # Doist.ado / AsyncTimer pacing: oracle only
+        if case[0] == "fpace":
+            return False      # raw (non-dyadic) floats: oracle only, the model's time is exact
+        return not (case[0] == "pace2" and case[2][0] == "exc")      # a doer that raises is the scheduler area's model
 
     def run_impl(self, case):
         if case[0] == "fpace":
             return T.run_fpace(case)
+        if case[0] == "pace2":
+            return T.run_pace2(case)
+        if case[0] == "apace":
+            return T.run_apace(case)
         if case[0] != "pace":
             raise core.Infra(f"bad case {case!r}")
         return T.run_pace(case)
 
     def oracle(self, case, obs):
+        if case[0] == "pace2":
+            return T.oracle_pace2(case, obs)
+        if case[0] == "apace":
+            return T.oracle_apace(case, obs)
         return T.oracle_fpace(case, obs) if case[0] == "fpace" else T.oracle_pace(case, obs)
 
     def nontrivial(self, case, obs):
+        if case[0] == "apace":
+            return sum(1 for e in obs[0] if e[0] == "c") >= 2
+        if case[0] == "pace2":
+            return obs[5] is not None and sum(1 for e in obs[4] if e[0] == "c") >= 2
         if case[0] == "fpace":
             return sum(1 for e in obs[0] if e[0] == "c") >= 2
         _, base, incs, ovs, tock0, pre, n, xs = case
@@ -89,6 +135,11 @@ class C07(core.Check):
         return begun >= 2 and (any(d < 0 for d in incs) or any(o != 0 for o in ovs) or any(p[0] == "tock" for p in pre))
 
     def features(self, case, obs):
+        if case[0] == "apace":
+            return ["apace", "apace:end:" + obs[1], f"apace:cycles~{min(sum(1 for e in obs[0] if e[0] == 'c'), 10)}"]
+        if case[0] == "pace2":
+            return ["pace2", "pace2:mode:" + case[2][0], "pace2:end1:" + obs[2], "pace2:end2:" + str(obs[5]), "pace2:entry:" + case[3][5]] + \
+                (["pace2:tock-reassigned-between-runs"] if case[2][1] is not None else [])
         if case[0] == "fpace":
             return ["fpace", "fpace:end:" + obs[1], f"fpace:cycles~{min(sum(1 for e in obs[0] if e[0] == 'c'), 10)}"] + \
                 (["fpace:tock-assigned"] if case[5] is not None else []) + (["fpace:backward-step"] if any(d < 0 for d in case[2]) else [])
@@ -98,6 +149,10 @@ class C07(core.Check):
             f.append("tock-assigned-after-construction")
         if any(p[0] == "peek" for p in pre):
             f.append("peek-before-run")
+        if any(p[0] == "sib" for p in pre):
+            f.append("sibling-doist-built")
+        if sum(1 for p in pre if p[0] == "tock") > 1:
+            f.append("tock-assigned-repeatedly")
         if tock0 is None:
             f.append("default-tock")
         npre = len(obs[0])
@@ -122,13 +177,25 @@ class C07(core.Check):
         return f
 
     def shrink(self, case):
+        if case[0] == "apace":
+            return []
+        if case[0] == "pace2":
+            out = []
+            for f in T.shrink_pace(("pace",) + tuple(case[1])):
+                out.append(("pace2", f[1:], case[2], case[3]))
+            b2, i2, o2, n2, x2, e = case[3]
+            if n2 > 1:
+                out.append(("pace2", case[1], case[2], (b2, i2, o2, n2 - 1, x2[:n2 - 1], e)))
+            if o2:
+                out.append(("pace2", case[1], case[2], (b2, i2, o2[:-1], n2, x2, e)))
+            return out[:60]
         if case[0] == "fpace":
             _, base, incs, ovs, tock0, tock1, n = case
             return [("fpace", base, incs, ovs, tock0, tock1, n - 1)] if n > 1 else []
         return T.shrink_pace(case)
 
     def mutate(self, rng, case):
-        if case[0] == "fpace":
+        if case[0] in ("fpace", "pace2", "apace"):
             return []
         out = list(T.shrink_pace(case))[:30]
         _, base, incs, ovs, tock0, pre, n, xs = case
